@@ -551,6 +551,13 @@ func (env *Env) call(x *SCall) Value {
 	case "isnil":
 		a := env.eval(x.Args[0])
 		return boolVal(Eq(a.L[0], I(0)))
+	case "typednil":
+		// typednil(i): the interface value i is not nil but wraps a nil pointer
+		a := env.eval(x.Args[0])
+		if len(a.L) < 2 {
+			env.fail("typednil: interface value expected")
+		}
+		return boolVal(And(Not(Eq(a.L[0], I(0))), Eq(a.L[1], I(0))))
 	case "implements":
 		// implements(ifaceValue, InterfaceType): the comma-ok type assertion would succeed
 		a := env.eval(x.Args[0])
